@@ -182,6 +182,7 @@ class Driver:
     def run(self, requests, shards=None):
         if not requests:
             return []
+        keepalive()
         shards = shards or min(JOBS, max(1, len(requests) // 200))
         chunks = [requests[i::shards] for i in range(shards)]
         procs = []
@@ -212,6 +213,14 @@ class CaseTimeout(Exception):
 
 
 WD = {'limit': 0, 'timeouts': 0}
+
+
+def keepalive():
+    """long steps of the harness itself (a batch in a reference interpreter, the OCaml driver) re-arm the check-wide watchdog: it is meant for
+    implementation calls that do not come back, not for our own bookkeeping"""
+    import signal, threading
+    if WD['limit'] and threading.current_thread() is threading.main_thread():
+        signal.setitimer(signal.ITIMER_REAL, WD['limit'])
 
 
 class time_limit:
